@@ -485,6 +485,9 @@ func (fi *FileInfo) getTrailer() (Dict, error) {
 		}
 		if xrefStream != nil {
 			xref, err := fi.Read(xrefStream)
+			if IsReadError(err) {
+				return nil, err
+			}
 			if err == nil {
 				stm, ok := xref.(*Stream)
 				if ok && stm.Dict["Root"] != nil {
@@ -498,6 +501,9 @@ func (fi *FileInfo) getTrailer() (Dict, error) {
 		if err == nil {
 			return trailer, nil
 		}
+		if IsReadError(err) {
+			return nil, err
+		}
 
 		// TODO(voss): method 3: Try to collect all the pieces to build
 		// our own trailer dictionary.
@@ -507,7 +513,7 @@ func (fi *FileInfo) getTrailer() (Dict, error) {
 
 func (fi *FileInfo) readTrailer(sect *FileSection) (Dict, error) {
 	if sect.TrailerPos == 0 {
-		return nil, errors.New("no trailer found in section")
+		return nil, Error("no trailer found in section")
 	}
 
 	sr := io.NewSectionReader(fi.R, sect.TrailerPos, fi.FileSize-sect.TrailerPos)
